@@ -106,6 +106,8 @@ func (d *tmpl) text() string {
 	case d.TargetNS != "":
 		fmt.Fprintf(&b, "  namespace: %s\n", d.TargetNS)
 	}
+	// metadata rendered from a source as well: an update has to carry re-rendered annotations, not only the payload
+	fmt.Fprintf(&b, "  annotations:\n    %s: {{ %s | quote }}\n", metaAnnotation, d.metaExpr())
 	if d.TargetKind == "ConfigMap" {
 		b.WriteString("data:\n")
 	} else {
@@ -128,6 +130,25 @@ func (d *tmpl) text() string {
 		b.WriteString("  broken: {{ .config.doesNotExist.atAll }}\n")
 	}
 	return b.String()
+}
+
+const metaAnnotation = "verif.example/meta"
+
+// metaSource is the source whose value the target's annotation is rendered from (the first required one); nil: the environment.
+func (d *tmpl) metaSource() *src {
+	for i := range d.Sources {
+		if !d.Sources[i].Optional {
+			return &d.Sources[i]
+		}
+	}
+	return nil
+}
+
+func (d *tmpl) metaExpr() string {
+	if s := d.metaSource(); s != nil {
+		return ".config." + s.Dest
+	}
+	return ".environment.kubernetes.version"
 }
 
 func (d *tmpl) object() *unstructured.Unstructured {
@@ -230,6 +251,11 @@ func classify(d *tmpl, kube string, look func(s src) (string, bool)) verdict {
 		v.Class = "template-error"
 		return v
 	}
+	if ms := d.metaSource(); ms != nil {
+		v.Content["@meta"] = vals[ms.Dest]
+	} else {
+		v.Content["@meta"] = kube
+	}
 	tns := d.TargetNS
 	if tns == "@k0" {
 		tns = vals["k0"]
@@ -262,7 +288,18 @@ func contentOf(kind string, o simkube.Obj) map[string]any {
 		f = "data"
 	}
 	m, _ := o[f].(map[string]any)
-	return m
+	out := map[string]any{}
+	for k, v := range m {
+		out[k] = v
+	}
+	if md, _ := o["metadata"].(map[string]any); md != nil {
+		if an, _ := md["annotations"].(map[string]any); an != nil {
+			if v, ok := an[metaAnnotation]; ok {
+				out["@meta"] = v
+			}
+		}
+	}
+	return out
 }
 
 // ---- event driven scheduler ----
